@@ -480,9 +480,19 @@ def run_check(P, tier, seed, replay=None):
         return _run_check(P, tier, seed, replay)
 
 
+def _clean_stale_scratch():
+    """per-process scratch directories of harness processes that no longer exist (left behind by a crash)"""
+    d = WORK / 'args_home'
+    if d.exists():
+        for q in d.glob('p[0-9]*'):
+            if not Path('/proc/' + q.name[1:]).exists():
+                shutil.rmtree(q, ignore_errors=True)
+
+
 def _run_check(P, tier, seed, replay=None):
     t0 = time.time()
     pid = P.ID
+    _clean_stale_scratch()
     work = WORK / pid
     shutil.rmtree(work, ignore_errors=True)
     work.mkdir(parents=True, exist_ok=True)
